@@ -85,6 +85,15 @@ def _install_capture():
             _current._on_smgr(self)
     sessmod.SessionManager.__init__ = sm_init_wrap
 
+    import electrumx.server.history as hmod
+    h_init = hmod.History.__init__
+
+    def h_init_wrap(self):
+        h_init(self)
+        if _current is not None and _current.k.get('max_hist_row'):
+            self.max_hist_row_entries = _current.k['max_hist_row']
+    hmod.History.__init__ = h_init_wrap
+
     N = ctlmod.Notifications
     o_block, o_mempool, o_start = N.on_block, N.on_mempool, N.start
 
